@@ -829,6 +829,14 @@ def hist_part(run, r, runner, n):
             tot += (h - ref[g]) ** 2
         return 0.5 * c["k"] * scale * tot
 
+    # the documented potential is read from the manual of the tree under test: 1/2 k M sum_g (...)^2 (after the repair of the
+    # equation) or 1/2 k integral (...)^2 dxi = 1/2 k width sum_g (...)^2 (mid-point rule)
+    try:
+        tex = open(os.path.join(V.REPO, "doc", "colvars-refman-main.tex"), errors="replace").read()
+    except Exception:
+        tex = ""
+    k0 = tex.find("label{eq:colvarbias_restraint_histogram}")
+    doc_scale_M = k0 >= 0 and "k M \\sum" in tex[k0:k0 + 300]
     ml, where = [], []
     for k, c in enumerate(cases):
         cs = impl.get(k)
@@ -856,9 +864,9 @@ def hist_part(run, r, runner, n):
                 fd = -(energy(c, ref, sig, xp, M) - energy(c, ref, sig, xm, M)) / (2 * hh)
                 if abs(fd - Fi[i]) > 1e-5 * max(1.0, abs(fd), abs(Fi[i])):
                     run.violation("potential:histogram:force", "values %r: force on value %d is %r, minus the derivative of the energy is %r" % (xs, i, Fi[i], fd), rp)
-            Edoc = energy(c, ref, sig, xs, c["width"])
+            Edoc = energy(c, ref, sig, xs, M if doc_scale_M else c["width"])
             if abs(E) > 1e-12 and not close(Edoc, o["E"], 1e-9):
-                run.violation("potential:histogram:energy-scale", "M %d values %r, width %r: energy %r, documented 1/2 k integral (h-h0)^2 = %r (ratio %r = M/width)" % (M, xs, c["width"], o["E"], Edoc, o["E"] / Edoc if Edoc else float("nan")), rp)
+                run.violation("potential:histogram:energy-scale", "M %d values %r, width %r: energy %r, the manual's equation gives %r (ratio %r = M/width)" % (M, xs, c["width"], o["E"], Edoc, o["E"] / Edoc if Edoc else float("nan")), rp)
             nz = nz or abs(o["E"]) > 1e-9
             ml.append("HIST %s %s %s %s %d %s %d %s" % (hx(c["k"]), hx(sig), hx(c["lower"]), hx(c["width"]), len(ref),
                                                       " ".join(hx(x) for x in ref), M, " ".join(hx(x) for x in xs)))
@@ -1285,6 +1293,342 @@ def kman_part(run, r, runner, n):
         run.mismatch("k-moving-manifold", "model run", len(where), len(mout))
 
 
+def script_part(run, r, runner, n):
+    """entry points other than the engine step: colvarmodule::energy_difference (replica exchange) on harmonic / linear
+    restraints with fixed parameters - the alternative energy minus the current one, nothing changed afterwards - tied to
+    the model's rediff; and `cv bias r update` (recorded findings: it runs the whole step again)."""
+    cases = []
+    for k in range(n):
+        kind = r.choice(["harmonic", "harmonic", "linear"])
+        nv = r.choice([1, 2])
+        vars_ = []
+        for i in range(nv):
+            v = {"w": r.choice(WIDTHS), "per": False}
+            if kind == "harmonic" and r.random() < 0.4:
+                v.update(per=True, P=r.choice([4.0, 8.0]), wc=r.choice([0.0, 1.0, -2.5]))
+            vars_.append(v)
+        c = {"kind": kind, "vars": vars_, "mode": "none", "k": r.choice([0.5, 1.0, 2.0, 3.0]), "accw": False, "dec": False, "lexp": 1.0,
+             "centers": [V.dyadic(r, -3, 3, bits=2) for _ in vars_],
+             "k2": r.choice([None, 0.25, 4.0, 1.5]), "c2": None, "xs": [[V.dyadic(r, -5, 5, bits=3) for _ in vars_] for _ in range(3)]}
+        if r.random() < 0.6 or c["k2"] is None:
+            c["c2"] = [V.dyadic(r, -3, 3, bits=2) for _ in vars_]
+        cases.append(c)
+    scn = []
+    for k, c in enumerate(cases):
+        L = ["echo CASE %d" % k, "natoms %d" % len(c["vars"]), "new", "capture", "config EOF"] + config_text(c) + ["EOF", "show atomf 0 cv 0 energy 0 bias 0"]
+        alt = []
+        if c["k2"] is not None:
+            alt += ["forceConstant", "%r" % c["k2"], "|"]
+        if c["c2"] is not None:
+            alt += ["centers"] + ["%r" % x for x in c["c2"]] + ["|"]
+        for j, xs in enumerate(c["xs"]):
+            for i, x in enumerate(xs):
+                L.append("pos %d 0 0 %s" % (i + 1, hx(x)))
+            L += ["step", "rdump"]
+            if j == 1:
+                L += ["ediff r " + " ".join(alt), "rdump"]
+        L.append("echo END %d" % k)
+        scn += L
+    # recorded findings: `cv bias r update` in the middle of a step
+    base = colvar_block(0, {"w": 0.5, "per": False})
+    scn += ["echo CASE %d" % n, "natoms 1", "new", "capture", "config EOF"] + base + ["harmonic {", "  name r", "  colvars v0", "  centers 1.0", "  forceConstant 2.0",
+            "  targetForceConstant 4.0", "  targetNumSteps 2", "  targetNumStages 2", "}", "EOF", "show atomf 0 cv 0 energy 0 bias 0", "pos 1 0 0 %s" % hx(0.5)] + \
+           ["step", "rdump"] * 3 + ["script cv bias r update", "rdump", "echo END %d" % n]
+    rc2, iout, e2 = V.run_lines(runner.unit, scn, cwd=runner.scratch)
+    impl = parse_impl(iout)
+    ed = {}
+    cur = None
+    for l in iout:
+        if l.startswith("echo CASE"):
+            cur = int(l.split()[2])
+        elif l.startswith("EDIFF ") and cur is not None:
+            d_ = parse_fields(l)
+            ed[cur] = (float.fromhex(d_["de"]), d_["err"])
+    ml, where = [], []
+    for k, c in enumerate(cases):
+        cs = impl.get(k)
+        run.dist("energy_difference:%s" % c["kind"])
+        rp = {"kind": "ediff", "case": c}
+        if cs is None or not cs["complete"] or len(cs["steps"]) != 4 or k not in ed or any("err=ok" not in l for l in cs["config"]):
+            run.mismatch("energy_difference", c, ((cs or {}).get("config", []) + (cs or {}).get("raw", []))[-3:], "complete run")
+            continue
+        de, err = ed[k]
+        before, after, nxt = cs["steps"][1], cs["steps"][2], cs["steps"][3]
+        xs = c["xs"][1]
+        d = {"lk": -1.0, "uk": -1.0, "k0": c["k"]}
+        E0, _, _ = spec_terms(c, d, fr(c["k"]), c["centers"], xs)
+        c2 = c["c2"] if (c["c2"] is not None and c["kind"] == "harmonic") else c["centers"]     # linear: only the force constant is read
+        E1, _, _ = spec_terms(c, d, fr(c["k2"] if c["k2"] is not None else c["k"]), c2, xs)
+        if err != "ok" or not close(de, float(E1 - E0)):
+            run.violation("energy-difference:value", "%s restraint k %r centres %r at values %r, alternative k %r centres %r: energy_difference %r (err %s), closed forms give %r" % (c["kind"], c["k"], c["centers"], xs, c["k2"], c["c2"], de, err, float(E1 - E0)), rp)
+        if not (close(after["E"], before["E"]) and after["K"] == before["K"] and after["C"] == before["C"]):
+            run.violation("energy-difference:state-changed", "after energy_difference: energy/k/centres %r %r %r, before %r %r %r" % (after["E"], after["K"], after["C"], before["E"], before["K"], before["C"]), rp)
+        E3, F3, _ = spec_terms(c, d, fr(c["k"]), c["centers"], c["xs"][2])
+        if not close(nxt["E"], float(E3)) or not all(close(float(a), b) for a, b in zip(F3, nxt["F"])):
+            run.violation("energy-difference:next-step", "the step after energy_difference: energy %r forces %r, closed forms %r %r" % (nxt["E"], nxt["F"], float(E3), [float(f) for f in F3]), rp)
+        p = ["EDIFF", c["kind"], str(len(c["vars"]))]
+        for v in c["vars"]:
+            p += [hx(v["w"]), "1" if v["per"] else "0", hx(v.get("P", 1.0)), hx(v.get("wc", 0.0))]
+        p += [hx(x) for x in c["centers"]] + [hx(c["k"])] + [hx(x) for x in xs]
+        p += (["1", hx(c["k2"])] if c["k2"] is not None else ["0"])
+        p += (["1"] + [hx(x) for x in c["c2"]] if c["c2"] is not None else ["0"])
+        ml.append(" ".join(p))
+        where.append((c, de))
+        run.count("ediff%d" % k, True)
+    rc, mout, e = V.run_lines(runner.model, ml)
+    if len(mout) != len(where):
+        run.mismatch("energy_difference", "model run", len(where), len(mout))
+    for (c, de), line in zip(where, mout):
+        if not close(float.fromhex(line.strip()), de):
+            run.mismatch("energy_difference", c, de, float.fromhex(line.strip()))
+    cs = impl.get(n)
+    if cs and cs["complete"] and len(cs["steps"]) == 4:
+        a, b = cs["steps"][2], cs["steps"][3]
+        if (b["ST"], b["K"]) != (a["ST"], a["K"]) or b["TI"]:
+            run.violation("script:update-reruns-the-step", "staged k 2->4, N 2, 2 stages: after step 2 (stage %d, k %r) `cv bias r update` gives stage %d, k %r and writes %r" % (a["ST"], a["K"], b["ST"], b["K"], b["TI"]), {"kind": "script-update"})
+
+
+def traj_part(run, r, runner, n):
+    """the trajectory columns written by the restraints (write_traj_label / write_traj of harmonic, linear, harmonicWalls,
+    histogramRestraint): x0_<variable> (outputCenters), W_<bias> (outputAccumulatedWork), E_<bias> (outputEnergy) against the
+    internal members after every step (14 digits), and through them against the model (the members are tied elsewhere);
+    plus refHistogramFile (one- and two-column files) and writeHistogram of the histogram restraint."""
+    cases = []
+    for k in range(n):
+        c = gen_case(r, k)
+        if any(t != "S" for t, _ in c["events"]):
+            c["events"] = [e for e in c["events"] if e[0] == "S"]     # the trajectory file is per process: no restarts here
+        c["outc"] = c["kind"] != "walls" and r.random() < 0.8
+        cases.append(c)
+    scn = []
+    for k, c in enumerate(cases):
+        conf = ["config EOF", "colvarsTrajFrequency 1"] + config_text(c)
+        bi = max(j for j, l in enumerate(conf) if l == "}")
+        extra = ["  outputEnergy on"] + (["  outputCenters on"] if c["outc"] else [])
+        conf = conf[:bi] + extra + conf[bi:] + ["EOF"]
+        L = ["echo CASE %d" % k, "natoms %d" % len(c["vars"]), "prefix tj%d" % k, "new"]
+        if c["it0"]:
+            L.append("setstep %d" % c["it0"])
+        L += ["capture"] + conf + ["show atomf 0 cv 0 energy 0 bias 0"]
+        for typ, xs in c["events"]:
+            for i, x in enumerate(xs):
+                L.append("pos %d 0 0 %s" % (i + 1, hx(x)))
+            L += ["step", "rdump"]
+        L += ["postrun", "echo END %d" % k]
+        scn += L
+    # histogram restraint: reference histogram from a file (x p(x) pairs, or p(x) only), histogram written at the end
+    hfiles = []
+    for j, two in enumerate([True, False]):
+        fn = os.path.join(runner.scratch, "refhist%d.dat" % j)
+        ref = [0.5, 1.0, 0.25, 0.25]
+        with open(fn, "w") as f:
+            f.write("# reference\n")
+            for g, p_ in enumerate(ref):
+                f.write(("%r %r\n" % (0.25 + 0.5 * g, p_)) if two else ("%r\n" % p_))
+        hfiles.append((fn, ref))
+        k = n + j
+        scn += ["echo CASE %d" % k, "natoms 2", "prefix th%d" % j, "new", "capture", "config EOF", "colvarsTrajFrequency 1"] + \
+               colvar_block(0, {"w": 1.0, "per": False}) + colvar_block(1, {"w": 1.0, "per": False}) + \
+               ["histogramRestraint {", "  name r", "  colvars v0 v1", "  lowerBoundary 0.0", "  upperBoundary 2.0", "  width 0.5", "  gaussianSigma 0.5",
+                "  refHistogramFile %s" % fn, "  writeHistogram on", "  outputEnergy on", "  forceConstant 2.0", "}", "EOF", "show atomf 0 cv 0 energy 0 bias 0"]
+        for xs in ([0.25, 1.5], [0.75, 1.0]):
+            scn += ["pos 1 0 0 %s" % hx(xs[0]), "pos 2 0 0 %s" % hx(xs[1]), "step", "rdump"]
+        scn += ["postrun", "echo END %d" % k]
+    # ABMD: the reference value column ref_<variable>
+    kab = n + 2
+    abx = [0.5, 1.0, 0.75, 1.5, 1.25, 2.5, 3.0]
+    scn += ["echo CASE %d" % kab, "natoms 1", "prefix tab", "new", "config EOF", "colvarsTrajFrequency 1"] + colvar_block(0, {"w": 1.0, "per": False}) + \
+           ["abmd {", "  name r", "  colvars v0", "  forceConstant 2.0", "  stoppingValue 2.0", "}", "EOF", "show atomf 0 cv 0 energy 0 bias 0"]
+    for x in abx:
+        scn += ["pos 1 0 0 %s" % hx(x), "step", "rdump"]
+    scn += ["postrun", "echo END %d" % kab]
+    rc2, iout, e2 = V.run_lines(runner.unit, scn, cwd=runner.scratch)
+    impl = parse_impl(iout)
+
+    def read_traj(fn):
+        rows, labels = {}, None
+        if not os.path.exists(fn):
+            return None, {}
+        for l in open(fn):
+            if l.startswith("#"):
+                labels = l[1:].split()
+            elif l.strip():
+                t = l.replace("(", " ").replace(")", " ").replace(",", " ").split()
+                rows[int(t[0])] = [float(x) for x in t[1:]]
+        return labels, rows
+
+    c14 = lambda a, b: abs(a - b) <= 2e-14 * max(abs(a), abs(b)) + 1e-300
+    for k, c in enumerate(cases):
+        cs = impl.get(k)
+        run.dist("traj:%s:%s" % (c["kind"], c["mode"]))
+        if cs is None or not cs["complete"] or any("err=ok" not in l for l in cs["config"]):
+            run.mismatch("traj", c, ((cs or {}).get("config", []) + (cs or {}).get("raw", []))[-3:], "complete run")
+            continue
+        labels, rows = read_traj(os.path.join(runner.scratch, "tj%d.colvars.traj" % k))
+        rp = {"kind": "traj", "case": c, "labels": labels}
+        nv = len(c["vars"])
+        want = ["step"] + ["v%d" % i for i in range(nv)] + ["E_r"] + (["x0_v%d" % i for i in range(nv)] if c["outc"] else []) + \
+               (["W_r"] if c["accw"] and c["mode"] in ("cc", "kc") else [])
+        if labels != want:
+            run.violation("traj:labels", "%s restraint (mode %s, outputCenters %s, work %s): columns %r, expected %r" % (c["kind"], c["mode"], c["outc"], c["accw"], labels, want), rp)
+            continue
+        for o in cs["steps"]:
+            row = rows.get(o["it"])
+            if row is None or len(row) != len(want) - 1:
+                run.violation("traj:row-missing", "no (complete) trajectory line for step %d: %r" % (o["it"], row), rp)
+                break
+            col = dict(zip(want[1:], row))
+            bad = not c14(col["E_r"], o["E"])
+            if c["outc"]:
+                bad = bad or not all(c14(col["x0_v%d" % i], o["C"][i]) for i in range(nv))
+            if "W_r" in col:
+                bad = bad or not c14(col["W_r"], o["W"])
+            if bad:
+                run.violation("traj:columns", "step %d: trajectory columns %r, members E %r centres %r W %r" % (o["it"], col, o["E"], o["C"], o["W"]), rp)
+                break
+        run.count("traj%d" % k, True)
+    cs = impl.get(kab)
+    run.dist("traj:abmd")
+    if cs is None or not cs["complete"] or len(cs["steps"]) != len(abx):
+        run.mismatch("traj", "abmd", ((cs or {}).get("config", []) + (cs or {}).get("raw", []))[-3:], "complete run")
+    else:
+        labels, rows = read_traj(os.path.join(runner.scratch, "tab.colvars.traj"))
+        if labels != ["step", "v0", "ref_v0"]:
+            run.violation("traj:labels", "ABMD: columns %r, expected step v0 ref_v0" % labels, {"kind": "traj", "case": "abmd"})
+        else:
+            for o in cs["steps"]:
+                row = rows.get(o["it"])
+                if row is None or not c14(row[1], o["REF"]):
+                    run.violation("traj:columns", "ABMD step %d: trajectory line %r, reference value %r" % (o["it"], row, o["REF"]), {"kind": "traj", "case": "abmd"})
+                    break
+        run.count("traj:abmd", True)
+    for j, (fn, ref) in enumerate(hfiles):
+        k = n + j
+        cs = impl.get(k)
+        run.dist("histogramRestraint:refHistogramFile")
+        if cs is None or not cs["complete"] or any("err=ok" not in l for l in cs["config"]) or len(cs["steps"]) != 2:
+            run.mismatch("histogram-file", fn, ((cs or {}).get("config", []) + (cs or {}).get("raw", []))[-3:], "complete run")
+            continue
+        tot = sum(ref) * 0.5
+        refn = [x / tot for x in ref]
+        for xs, o in zip(([0.25, 1.5], [0.75, 1.0]), cs["steps"]):
+            nrm = 1.0 / (math.sqrt(2.0 * math.pi) * 0.5 * 2)
+            p_ = [nrm * sum(math.exp(-(0.25 + 0.5 * g - x) ** 2 / (2 * 0.25)) for x in xs) for g in range(4)]
+            E = 0.5 * 2.0 * 2 * sum((a - b) ** 2 for a, b in zip(p_, refn))
+            if not close(E, o["E"]):
+                run.violation("potential:histogram:energy", "refHistogramFile (%s columns), values %r: energy %r, closed form %r" % ("two" if j == 0 else "one", xs, o["E"], E), {"kind": "histfile", "file": open(fn).read()})
+        # written histogram: "x p(x)" per bin at the end of the run
+        hf = os.path.join(runner.scratch, "th%d.r.hist.dat" % j)
+        got = [[float(t) for t in l.split()] for l in open(hf) if l.strip() and not l.startswith("#")] if os.path.exists(hf) else []
+        if len(got) != 4 or not all(abs(g[1] - q) < 1e-12 for g, q in zip(got, p_)):
+            run.violation("histogram:written-histogram", "writeHistogram: file %r, histogram of the last step %r" % (got, p_), {"kind": "histfile"})
+        elif not all(abs(g[0] - (0.25 + 0.5 * i)) < 1e-12 for i, g in enumerate(got)):
+            run.violation("histogram:written-grid-points", "writeHistogram writes the grid points %r, the histogram is evaluated at the bin centres %r" % ([g[0] for g in got], [0.25 + 0.5 * i for i in range(4)]), {"kind": "histfile"})
+        run.count("histfile%d" % j, True)
+
+
+def badconfig_part(run, runner):
+    """restraint configurations the manual forbids: each must be refused with an input error (no bias created, no crash)"""
+    v = colvar_block(0, {"w": 1.0, "per": False})
+    vp = colvar_block(1, {"w": 1.0, "per": True, "P": 4.0, "wc": 0.0})
+    H = lambda *l: ["harmonic {", "  name r", "  colvars v0"] + ["  " + x for x in l] + ["}"]
+    Wl = lambda cv, *l: ["harmonicWalls {", "  name r", "  colvars " + cv] + ["  " + x for x in l] + ["}"]
+    bad = [
+        ("harmonic:no-centers", H("forceConstant 1.0")),
+        ("harmonic:two-centers-one-variable", H("centers 1.0 2.0")),
+        ("harmonic:target-centers-count", H("centers 1.0", "targetCenters 1.0 2.0", "targetNumSteps 4")),
+        ("harmonic:negative-force-constant", H("centers 1.0", "forceConstant -1.0")),
+        ("harmonic:centers-and-k-both-moving", H("centers 1.0", "targetCenters 2.0", "targetForceConstant 2.0", "targetNumSteps 4")),
+        ("harmonic:targetNumSteps-missing", H("centers 1.0", "targetCenters 2.0")),
+        ("harmonic:stages-and-lambdaSchedule", H("centers 1.0", "targetForceConstant 2.0", "targetNumSteps 4", "targetNumStages 2", "lambdaSchedule 0 0.5 1")),
+        ("harmonic:work-with-stages", H("centers 1.0", "targetCenters 2.0", "targetNumSteps 4", "targetNumStages 2", "outputAccumulatedWork on")),
+        ("harmonic:decoupling-and-target-k", H("centers 1.0", "decoupling on", "targetForceConstant 2.0", "targetNumSteps 4")),
+        ("walls:none", Wl("v0", "forceConstant 1.0")),
+        ("walls:periodic-one-wall", Wl("v1", "lowerWalls 1.0")),
+        ("walls:upper-below-lower", Wl("v0", "lowerWalls 2.0", "upperWalls 1.0")),
+        ("walls:zero-wall-constant", Wl("v0", "lowerWalls 1.0", "upperWalls 2.0", "lowerWallConstant 0.0", "upperWallConstant 1.0")),
+        ("walls:equal-in-the-period", Wl("v1", "lowerWalls -1.0", "upperWalls 3.0")),
+        ("linear:periodic-variable", ["linear {", "  name r", "  colvars v1", "  centers 1.0", "}"]),
+        ("abmd:two-variables", ["abmd {", "  name r", "  colvars v0 v1", "  forceConstant 1.0", "  stoppingValue 2.0", "}"]),
+        ("histogram:zero-width", ["histogramRestraint {", "  name r", "  colvars v0", "  lowerBoundary 0", "  upperBoundary 2", "  width 0", "  refHistogram 1 1", "}"]),
+        ("histogram:upper-below-lower", ["histogramRestraint {", "  name r", "  colvars v0", "  lowerBoundary 2", "  upperBoundary 0", "  width 0.5", "  refHistogram 1 1", "}"]),
+        ("histogram:two-references", ["histogramRestraint {", "  name r", "  colvars v0", "  lowerBoundary 0", "  upperBoundary 1", "  width 0.5", "  refHistogram 1 1", "  refHistogramFile nofile.dat", "}"]),
+    ]
+    scn = []
+    for k, (name, blk) in enumerate(bad):
+        scn += ["echo CASE %d" % k, "natoms 2", "new", "config EOF"] + v + vp + blk + ["EOF", "pos 1 0 0 %s" % hx(0.5), "pos 2 0 0 %s" % hx(0.5), "step", "rdump", "echo END %d" % k]
+    rc2, iout, e2 = V.run_lines(runner.unit, scn, cwd=runner.scratch)
+    impl = parse_impl(iout)
+    for k, (name, blk) in enumerate(bad):
+        cs = impl.get(k)
+        run.dist("invalid-configuration")
+        if cs is None or not cs["complete"]:
+            run.violation("config:invalid-crashes:" + name, "the configuration %r did not run to completion (rc %d)" % (blk, rc2), {"kind": "badconfig", "block": blk})
+            continue
+        conf = [l for l in cs["config"] if l.startswith("CONFIG")]
+        run.count("badconfig:" + name, True)
+        if not conf or "err=ok" in conf[0] or cs["steps"]:
+            run.violation("config:invalid-accepted:" + name, "the forbidden configuration %r was accepted: %r, biases after it %d" % (blk, conf, len(cs["steps"])), {"kind": "badconfig", "block": blk})
+
+
+def extl_part(run, r, runner, n):
+    """harmonicWalls on an extended-Lagrangian variable: by default (bypassExtendedLagrangian on) the walls act on the value
+    of the collective variable proper, with bypassExtendedLagrangian off on the extended coordinate.  The closed form and the
+    extracted model are evaluated at the value the option selects (both are reported by the harness)."""
+    cases = []
+    for k in range(n):
+        hl, hu = r.choice([(True, True), (True, False), (False, True)])
+        lo = V.dyadic(r, 0, 2, bits=2)
+        c = {"kind": "walls", "vars": [{"w": r.choice(WIDTHS), "per": False}], "mode": "none", "k": r.choice([0.5, 1.0, 2.0]), "accw": False,
+             "dec": False, "lexp": 1.0, "equil": 0, "it0": 0, "hl": hl, "hu": hu, "lower": [lo], "upper": [lo + V.dyadic(r, 0.5, 2, bits=2)], "lwk": None,
+             "bypass": r.random() < 0.5, "zs": [lo + V.dyadic(r, -2, 4, bits=3) for _ in range(r.randint(3, 6))]}
+        if hl and hu and r.random() < 0.4:
+            c["lwk"], c["uwk"] = r.choice([(1.0, 4.0), (4.0, 1.0), (2.0, 8.0)])
+            c["k"] = None
+        cases.append(c)
+    scn = []
+    for k, c in enumerate(cases):
+        cv = colvar_block(0, c["vars"][0])
+        cv = cv[:3] + ["  extendedLagrangian on", "  extendedFluctuation 0.25", "  extendedTimeConstant 50"] + cv[3:]
+        bl = bias_block(c)
+        if not c["bypass"]:
+            bl = bl[:-1] + ["  bypassExtendedLagrangian off", "}"]
+        scn += ["echo CASE %d" % k, "natoms 1", "temperature 300", "dt 1", "new", "capture", "config EOF"] + cv + bl + ["EOF", "show atomf 0 cv 0 energy 0 bias 0"]
+        for z in c["zs"]:
+            scn += ["pos 1 0 0 %s" % hx(z), "step", "rdump"]
+        scn.append("echo END %d" % k)
+    rc2, iout, e2 = V.run_lines(runner.unit, scn, cwd=runner.scratch)
+    impl = parse_impl(iout)
+    # AX is not kept by parse_impl: read it from the raw lines
+    mlines, ds, where = [], [], []
+    for k, c in enumerate(cases):
+        cs = impl.get(k)
+        run.dist("walls:extended-lagrangian:bypass-%s" % ("on" if c["bypass"] else "off"))
+        rp = {"kind": "extl", "case": c}
+        if cs is None or not cs["complete"] or len(cs["steps"]) != len(c["zs"]) or any("err=ok" not in l for l in cs["config"]):
+            run.mismatch("walls-extended", c, ((cs or {}).get("config", []) + (cs or {}).get("raw", []))[-3:], "complete run")
+            continue
+        ax = [float.fromhex(parse_fields(l)["AX"]) for l in cs["raw"] if l.startswith("RD ")]
+        vals = []
+        moved = False
+        for z, a, o in zip(c["zs"], ax, cs["steps"]):
+            if a != z:
+                run.violation("harness:actual-value", "the variable proper is %r, imposed %r" % (a, z), rp)
+            moved = moved or o["X"][0] != a
+            vals.append(a if c["bypass"] else o["X"][0])
+        c2 = dict(c, events=[("S", [v_]) for v_ in vals])
+        ml, d = model_case(c2, runner.wallsinit)
+        for sig, text in oracle(c2, d, cs["steps"]):
+            run.violation(sig + ":extended-lagrangian", "bypassExtendedLagrangian %s, walls act on %r (extended coordinate %r, variable %r): %s" % ("on" if c["bypass"] else "off", vals, [o["X"][0] for o in cs["steps"]], ax, text), rp)
+        mlines.append(ml); ds.append(d); where.append((c2, cs))
+        run.count("extl%d" % k, moved)
+    rc, mout, e = V.run_lines(runner.model, mlines)
+    for (c2, cs), d, line, mlc in zip(where, ds, mout, mlines):
+        bad = compare(c2, d, parse_model_line(line), cs["steps"])
+        if bad:
+            run.mismatch("walls-extended", {"case": c2, "model_case": mlc}, bad, "agreement")
+
+
 def tsf_part(run, runner):
     """timeStepFactor f > 1: the bias is updated every f steps.  Continuous schedules are evaluated at the updated steps
     (and are stale in between, by design); staged schedules test exact step numbers and miss them (recorded finding)."""
@@ -1471,7 +1815,7 @@ def check(run):
     if st is None:
         return
     model, exes = st
-    runner = Runner(model, exes["c06unit"])
+    runner = Runner(model, os.environ.get("C06_UNIT_EXE") or exes["c06unit"])      # C06_UNIT_EXE: an instrumented (gcov) build of the harness
 
     # ---- regression scenarios of the repaired defects (first: they are the minimised failing cases)
     wit = witness_cases()
@@ -1536,6 +1880,10 @@ def check(run):
     hist_part(run, r, runner, 40 if quick else 2500)
     manifold_part(run, r, runner, 60 if quick else 3000)
     kman_part(run, r, runner, 40 if quick else 1500)
+    script_part(run, r, runner, 30 if quick else 600)
+    traj_part(run, r, runner, 30 if quick else 600)
+    badconfig_part(run, runner)
+    extl_part(run, r, runner, 30 if quick else 800)
     tsf_part(run, runner)
     ti_part(run, r, runner, 40 if quick else 1500)
     run.cov["correspondence"].update({"scenarios": len(cases), "regression_scenarios": len(wit)})
